@@ -34,11 +34,12 @@ def imp(prop, src, tag=""):
         print("imported", dst)
 
 
-def run(sid, tier="quick", wt="/tmp/wt-seeded"):
+def run(sid, tier="quick", wt=None):
     """apply the change to a scratch worktree at /repo's HEAD and run the property's check against it
     (VERIF_REPO=<worktree>), so that /repo itself and whatever else is running against it stay undisturbed;
     evidence and generated files are restored / regenerated from /repo afterwards"""
     d = SEED / sid
+    wt = wt or f"/tmp/wt-seeded-{sid}"     # one worktree per change: several runs may go on at once
     meta = json.loads((d / "meta.json").read_text())
     prop = meta["property"]
     head = sh("git -C /repo rev-parse HEAD").stdout.strip()
@@ -72,7 +73,7 @@ def run(sid, tier="quick", wt="/tmp/wt-seeded"):
                 except Exception:
                     pass
     finally:
-        sh(f"git -C {wt} checkout -- .")
+        sh(f"git -C /repo worktree remove --force {wt}")
         if ev_saved is not None:
             ev.write_text(ev_saved)
         sh(f"python3 tools/gen_consts.py {prop}", cwd=ROOT)   # generated files back to /repo's values
